@@ -135,6 +135,13 @@ class C13(Check):
                     sent.append(bytes(frame))
             ec.transport = Transport()
             loop_task = asyncio.ensure_future(ec.sendloop())
+            refused = None
+            if n in (2, 16, 20):
+                # a request that can never fit into a frame is issued first: it is refused, and nothing of it may reach the wire or
+                # the requests that follow on the same connection
+                refused = asyncio.ensure_future(ec.roundtrip(ECCmd.FPRD, 98, 0x10, data=b"\xaa" * 1480))
+                for _ in range(3):
+                    await asyncio.sleep(0)
             tasks = [asyncio.ensure_future(ec.roundtrip(ECCmd.FPRD, 7 + i, 0x10, *pyargs, data=case["data"])) for i in range(n)]
             # a request with OTHER formats of the same total size is in flight at the same time (issued last): a read-only
             # format of single bytes
@@ -153,6 +160,8 @@ class C13(Check):
                     r = bytearray(frame)
                     for d in dgs[1:]:
                         station = d["addr"] & 0xffff
+                        if station == 98:
+                            raise AssertionError(f"the over-long request that was refused is on the wire all the same ({d['len']} bytes, frame of {len(frame)} bytes)")
                         if station != 99:
                             outs.append(bytes(d["data"]))
                         # every request gets an answer of its own (the common answer shifted by its station number)
@@ -164,6 +173,8 @@ class C13(Check):
                     for _ in range(4):
                         await asyncio.sleep(0)
                 rets = [await asyncio.wait_for(t, 60) for t in tasks]
+                if refused is not None and not (refused.done() and not refused.cancelled() and isinstance(refused.exception(), OverflowError)):
+                    raise AssertionError("a request of 1480 data bytes was not refused with OverflowError")
                 if len(outs) != n or any(o_ != outs[0] for o_ in outs):
                     raise AssertionError(f"{n} identical concurrent requests were sent as {len(outs)} datagrams / with different payloads")
                 if self.valid(case):
@@ -177,7 +188,7 @@ class C13(Check):
                 return outs[0], rets[0], answers[7]
             finally:
                 loop_task.cancel()
-                for t in tasks + ([sibling] if sibling is not None else []):
+                for t in tasks + ([sibling] if sibling is not None else []) + ([refused] if refused is not None else []):
                     t.cancel()
 
         async def go():
@@ -364,7 +375,7 @@ class C13(Check):
         return ("argument lists of 0-3 (format, values) groups over B H I Q b h i q, 8% floating-point e f d (values incl. -0.0, preceded by the same request with +0.0; oracle only), pad bytes, byte strings and counted items, "
                 "optional trailing read-only format, data = None / count (often 0) / bytes (often empty); 8% malformed "
                 "(out-of-range or wrong count); bus echoes or returns random bytes; 15% of the requests are issued by 2, 15, 16, 17 or 20 tasks at once "
-                "through the real send loop (17 and 20 overflow one frame), each with an answer of its own, together with a request of OTHER formats of the same size. Non-trivial = has arguments and succeeded; "
+                "through the real send loop (17 and 20 overflow one frame; for 2, 16 and 20 a request too long for any frame is issued first and must be refused without a trace), each with an answer of its own, together with a request of OTHER formats of the same size. Non-trivial = has arguments and succeeded; "
                 "distinct by full case content")
 
     def distribution(self, cases, observed):
